@@ -208,6 +208,42 @@ func (r *Run) Finish() {
 	if r.Assume == nil {
 		out["assumptions"] = []string{}
 	}
+	if part := os.Getenv("VERIF_MERGE_PART"); part != "" {
+		// second part of a two-engine check: fold this run into the evidence the first part just wrote
+		if eb, err := os.ReadFile(filepath.Join(Root, "evidence", r.Property+".json")); err == nil {
+			var prev map[string]any
+			if json.Unmarshal(eb, &prev) == nil {
+				pc, _ := prev["coverage"].(map[string]any)
+				if pc != nil {
+					num := func(v any) float64 {
+						switch x := v.(type) {
+						case float64:
+							return x
+						case int64:
+							return float64(x)
+						case int:
+							return float64(x)
+						}
+						return 0
+					}
+					pc["evaluations"] = int64(num(pc["evaluations"]) + num(cov["evaluations"]))
+					pc["distinct_nontrivial"] = int64(num(pc["distinct_nontrivial"]) + num(cov["distinct_nontrivial"]))
+					if e, ok := pc["exhaustive"].(bool); ok {
+						pc["exhaustive"] = e && r.Exhaustive
+					}
+					parts, _ := pc["additional_parts"].(map[string]any)
+					if parts == nil {
+						parts = map[string]any{}
+					}
+					parts[part] = cov
+					pc["additional_parts"] = parts
+					prev["violations"] = int(num(prev["violations"])) + newV
+					prev["wall_s"] = num(prev["wall_s"]) + time.Since(r.start).Seconds()
+					out = prev
+				}
+			}
+		}
+	}
 	b, _ := json.MarshalIndent(out, "", " ")
 	os.MkdirAll(filepath.Join(Root, "evidence"), 0o755)
 	if err := os.WriteFile(filepath.Join(Root, "evidence", r.Property+".json"), b, 0o644); err != nil {
